@@ -16,7 +16,7 @@ with the multiplication operator, to construct values such as `11 * e(-21)`.
 """
 
 from enum import Enum
-from decimal import Decimal, Context, MAX_PREC, MAX_EMAX, MIN_EMIN
+from decimal import InvalidOperation, Decimal, Context, MAX_PREC, MAX_EMAX, MIN_EMIN
 from typing import Optional, Any, Union, Tuple
 from pydantic import BaseModel, Field
 from pydantic.dataclasses import dataclass
@@ -337,12 +337,17 @@ class Prefixed(BaseModel):
         return _round(lhs.number) <= _round(rhs.number)
 
     def __eq__(self, other) -> bool:
-        lhs, rhs = _scale_to_smaller(self, other)
+        if not isinstance(other, (Prefixed, int, float, str, Decimal)):
+            return NotImplemented  # Not a number: `None`, a `Literal`, ...
+        try:
+            lhs, rhs = _scale_to_smaller(self, other)
+        except (InvalidOperation, RuntimeError):
+            return NotImplemented  # A string which is not a number
         return _round(lhs.number) == _round(rhs.number)
 
     def __ne__(self, other) -> bool:
-        lhs, rhs = _scale_to_smaller(self, other)
-        return _round(lhs.number) != _round(rhs.number)
+        eq = self.__eq__(other)
+        return eq if eq is NotImplemented else not eq
 
     def __gt__(self, other) -> bool:
         lhs, rhs = _scale_to_smaller(self, other)
@@ -405,12 +410,7 @@ def _scale_to_smaller(
     and is converted before scaling."""
 
     other = to_prefixed(other)
-    smaller = (
-        me.prefix
-        if _EXACT.scaleb(me.number, me.prefix.value)
-        < _EXACT.scaleb(other.number, other.prefix.value)
-        else other.prefix
-    )
+    smaller = me.prefix if me.prefix.value < other.prefix.value else other.prefix
     return me.scale(smaller), other.scale(smaller)
 
 
